@@ -317,6 +317,9 @@ pub struct Cfg {
     /// `Disconnect` may also be called with a property that is not legal on a DISCONNECT (refused on a
     /// live handle, `Ok` on a dead one)
     pub disc_illegal: bool,
+    /// the Disconnect operation also comes as disconnect_with(success), with a Session Expiry Interval (300 s, the
+    /// maximum) asking the broker to keep the session, and with a reason code
+    pub disc_forms: bool,
     /// how the payload of a publish is supplied: 0 = byte slice, 1 = a closure that scribbles over the
     /// whole buffer it is given before writing the payload at its start, 2 = `Publication::text`
     pub payload_kinds: Vec<u8>,
@@ -383,6 +386,7 @@ impl Cfg {
             age_targets: Vec::new(),
             drain_until_dead: false,
             disc_illegal: false,
+            disc_forms: false,
             payload_kinds: vec![0],
             fault_kinds: 1,
         }
